@@ -107,7 +107,7 @@ class C10(core.Check):
     id = "C10"
     title = "Values are immutable: no element changes a value another reference can see"
     tiers = {
-        "quick": dict(runs=32_000, batch=400, wall=85, batch_timeout=150),
+        "quick": dict(runs=32_000, batch=200, wall=85, batch_timeout=150),
         "thorough": dict(runs=360_000, batch=500, wall=840, batch_timeout=1800),
     }
     per_run_timeout = 20
